@@ -347,6 +347,49 @@ def run(run):
     except Unsupported as e:
         ob.inconclusive(str(e))
 
+    ob = run.ob("statements-skip-newline-runs", "E2", "parse_statements (file level and inside blocks): a newline token between statements is "
+                "eaten and nothing else happens (no statement is recorded, no error) - so any number of blank or comment lines between two "
+                "statements is invisible; a statement must be followed by a newline, a dedent or the end of input", ["parse_statements::{closure}"])
+    try:
+        cls = [f for n, f in mir.fns.items() if re.match(r"^(.*::)?parse_statements::\{closure#0\}$", n) and len(f.args) == 3]
+        if len(cls) != 1:
+            raise Unsupported(f"parse_statements closure: {len(cls)} candidates")
+        exs = Exec(mir, max_paths=20000)
+        sts = State()
+        stmts = Ref(exs.new_cell(sts, Seq()))
+        start = Ref(exs.new_cell(sts, Opq(z3.Const("start", Val), "Position")))
+        env = Ref(exs.new_cell(sts, Agg("closure", cls[0].args[0][1].lstrip("&").replace("mut ", "").strip(), [stmts, start])))
+        its = Ref(exs.new_cell(sts, Opq(z3.Const("it", Val), "LexIterator")))
+        lexf = e2.rust_struct("src/parse/lex/token.rs", "Lex")
+        lexv = e2.mk_struct("src/parse/lex/token.rs", "Lex", {"pos": Opq(z3.Const("lex.pos", Val), "Position"), "token": Agg("Token", "NL", [])})
+        endss = e2.run_kernel(run, exs, cls[0], [env, its, Ref(exs.new_cell(sts, lexv))], sts)
+        cls_ = []
+        for p in endss:
+            if p.kind != "return":
+                raise Unsupported(f"unexpected path end {p}")
+            evs = [e_ for e_ in p.events if e_["name"].startswith("LexIterator::")]
+            ok = len(evs) == 1 and evs[0]["name"] == "LexIterator::eat"
+            if ok:
+                a1 = evs[0]["args"][1]
+                a1 = exs.read_ref(p.state, a1) if isinstance(a1, Ref) else a1
+                ok = isinstance(a1, Agg) and a1.variant == "NL"
+            after = exs.read_ref(p.state, stmts)
+            ok = ok and isinstance(after, Seq) and not after.parts
+            # the result is Ok exactly when eating the newline worked
+            if ok:
+                # the result is the eat result itself, mapped to () (Result::map keeps Ok / Err)
+                rv = exs.to_val(p.state, p.ret)
+                ev_ = exs.to_val(p.state, evs[0]["ret"])
+                same = z3.eq(rv, ev_) or (z3.is_app(rv) and rv.decl().name().startswith("call:Result::map") and z3.eq(rv.children()[0], ev_))
+                cls_.append(z3.Implies(conj(p.cond), z3.BoolVal(bool(same))))
+            else:
+                cls_.append(z3.Implies(conj(p.cond), z3.BoolVal(False)))
+        if not cls_:
+            raise Unsupported("no return path")
+        e2.prove_each(run, ob, exs, [], cls_, {}, replay_comments(rp, "statement-newlines"))
+    except Unsupported as e:
+        ob.inconclusive(str(e))
+
     ob = run.ob("crlf-equals-lf", "E2", "one lexer step on '\\r' followed by '\\n' leaves exactly the state and (empty) token "
                 "list that the step on '\\n' leaves, having consumed two characters; '\\r' followed by anything else is an error",
                 ["into_tokens ('\\r' and '\\n' arms)", "State::token(NL)"])
